@@ -100,7 +100,7 @@ def idxOfFile (file : String) : Nat :=
   | some (idx, _) => idxVal idx
   | none => 0
 
-def judge (j : Json) : Except String Verdict := do
+def judgeRound (j : Json) : Except String Verdict := do
   let inp ← getObj j "in"
   let obs ← getObj j "obs"
   let stream := getStrD inp "stream"
@@ -265,6 +265,23 @@ def judge (j : Json) : Except String Verdict := do
          cover := cover, nontrivial := inDomain && !esIn.isEmpty,
          sig := if !inDomain then "guard:dropin-is-a-directory:start=" ++ oStart else if spec then "" else sig,
          excluded := !inDomain, model := Json.str mdesc }
+
+/-- A case with a restart carries the observation of the second session of the same Adaptation
+    under `obs.round2`; it is judged by the same rules as the first (same directory, same plan). -/
+def judge (j : Json) : Except String Verdict := do
+  let v1 ← judgeRound j
+  let obs ← getObj j "obs"
+  match getOpt obs "round2" with
+  | none => pure v1
+  | some o2 =>
+    let inp ← getObj j "in"
+    let v2 ← judgeRound (Json.mkObj [("in", inp), ("obs", o2)])
+    let pre (s : String) := if s == "" then "" else "after a restart of the same Adaptation: " ++ s
+    pure { v1 with
+      agree := v1.agree && v2.agree, spec := v1.spec && v2.spec,
+      why := if !v1.spec || (!v1.agree && v2.spec) then v1.why else if !v2.spec || !v2.agree then pre v2.why else v1.why,
+      sig := if !v1.spec then v1.sig else if !v2.spec then "restart:" ++ v2.sig else v1.sig,
+      cover := v1.cover ++ ["plan:restart"] ++ (v2.cover.filter fun c => c.startsWith "start:" || c.startsWith "after:").map (fun c => "restart:" ++ c) }
 
 def main : IO UInt32 := runLines judge
 end Drv.C18
